@@ -59,7 +59,9 @@ def gen(r, tier, i):
             # (branch) port; a census process reports how many children its glob view shows
             'census': r.choice([None, None, r.choice([0.5, 1.0])]),
             # a process whose first-listed port is a glob port wired through a sub-topology
-            'feeder': r.choice([None, None, r.choice([0.5, 1.0])])}
+            'feeder': r.choice([None, None, r.choice([0.5, 1.0])]),
+            # a store declared with a branch-level _emit by one process, further variables in and below it by another
+            'branch_emit': r.choice([None, None, r.choice([0.5, 1.0])])}
 
 
 def run_grammar(spec, V):
@@ -220,6 +222,28 @@ def run_perm(spec, V):
         def next_update(self, timestep, states):
             return {'agents': {a: {'food': 1} for a in states['agents']}, 'stock': {'level': -len(states['agents'])}}
 
+    class Reporter(Process):
+        """Declares its store with a branch-level _emit flag."""
+        def ports_schema(self):
+            return {'cell': {'_emit': True, 'mass': {'_default': 1}}}
+
+        def calculate_timestep(self, states):
+            return self.parameters['ts']
+
+        def next_update(self, timestep, states):
+            return {'cell': {'mass': 1}}
+
+    class Interior(Process):
+        """Declares further variables in and below the reporter's store, without flags of their own."""
+        def ports_schema(self):
+            return {'cell': {'glucose': {'_default': 0}}, 'internal': {'c': {'_default': 0}}, 'leaf': {'_default': 7}}
+
+        def calculate_timestep(self, states):
+            return self.parameters['ts']
+
+        def next_update(self, timestep, states):
+            return {'cell': {'glucose': 1}, 'internal': {'c': 1}}
+
     def once(perm_seed):
         r = random.Random(perm_seed) if perm_seed is not None else None
         procs = {k: A({'pid': int(k[1:]), 'ts': ts, 'flip': bool(r and r.random() < 0.5)}) for k, ts in spec['procs'].items()}
@@ -231,6 +255,9 @@ def run_perm(spec, V):
             procs['census'] = Census({'ts': spec['census']})
         if spec.get('feeder'):
             procs['feeder'] = Feeder({'ts': spec['feeder']})
+        if spec.get('branch_emit'):
+            procs['reporter'] = Reporter({'ts': spec['branch_emit']})
+            procs['interior'] = Interior({'ts': spec['branch_emit']})
         steps = {'s%d' % j: St({'pid': j}) for j in spec['steps']}
         flow = {k: [(d,) for d in deps] for k, deps in spec['flow'].items()}
         topo = {k: ({'S': ('s',)} if k == 'grow' else {'S': ('s',), 'T': ('t',)}) for k in list(procs) + list(steps)}
@@ -238,6 +265,9 @@ def run_perm(spec, V):
             topo['grower'] = {'pool': ('pool',), 'book': ('u', 'book')}
             topo['census'] = {'pool': ('pool',), 'report': ('report',)}
         init = {'s': {'acc': 3}, 't': {'sum2': 1}}
+        if spec.get('branch_emit'):
+            topo['reporter'] = {'cell': ('bcell',)}
+            topo['interior'] = {'cell': ('bcell',), 'internal': ('bcell', 'internal'), 'leaf': ('bcell', 'lv')}
         if spec.get('feeder'):
             topo['feeder'] = {'agents': {'_path': ('fed',), '*': {'food': ('food',)}}, 'stock': ('u', 'stock')}
             init['fed'] = {'a': {'food': 0}, 'b': {'food': 0}}
